@@ -9,7 +9,8 @@
    queued (is_pending_open of a client, is_pending_push), reserved (local) while a pushed response waits for a slot,
    else the state of the record.
    wf_shape: the record shapes no history produces (checked at every label by the lock-step).
-   lenient: the classes where h2 is more lenient than RFC 9113 5.1 demands (see the C09_wire_lenient theorems). *)
+   lenient: the classes where h2 is more lenient than RFC 9113 5.1 demands (a stream error or silence instead of
+   GOAWAY; after repair 28d67d9 none of them hands anything to the application) (see the C09_wire_lenient theorems). *)
 From H2V Require Import Base.Tac Base.Bytes Model.StreamState Ref.Rfc9113Stream Proofs.StreamStateProofs
   Model.Dispatch Proofs.DispatchRecv Proofs.DispatchTol Proofs.DispatchErr Proofs.DispatchLenient.
 Local Open Scope N_scope.
@@ -131,6 +132,14 @@ Theorem C09_wire_lenient_witnesses :
    demands_conn_error st_l1 2 WINDOW_UPDATE = true /\ reacts st_l1 (LRecvWindowUpdate 2 wobs_ok) = false) /\
   (demands_conn_error st_l4 2 HEADERS = true /\ reacts st_l4 (LRecvHeaders 2 false false hobs_ok 9) = false).
 Proof. exact (conj lenient_promise_unsent lenient_headers_on_reserved_local). Qed.
+
+(* repaired by 28d67d9 (found with this model): a PUSH_PROMISE on a request not sent yet, on a request reset before it was
+   sent, or on a stream that is itself pushed is now a connection error (it used to be accepted) *)
+Theorem C09_wire_push_only_on_a_seen_request :
+  demands_conn_error st_l3 1 PUSH_PROMISE = true /\ reacts st_l3 (LRecvPushPromise 1 2 pobs_ok 9) = true /\
+  demands_conn_error st_l2 1 PUSH_PROMISE = true /\ reacts st_l2 (LRecvPushPromise 1 2 pobs_ok 9) = true /\
+  demands_conn_error st_l5 2 PUSH_PROMISE = true /\ reacts st_l5 (LRecvPushPromise 2 4 pobs_ok 9) = true.
+Proof. exact push_only_on_a_seen_request. Qed.
 
 (* the repaired defect 60d7633 (found with this model): the refusal of a PUSH_PROMISE on a locally reset parent named
    an identifier nobody had checked *)
